@@ -18,7 +18,8 @@ BOUNDS = ("(a) save / re-open / add rounds through the real VirtualFile (what --
           "step from a symbolic allocation table / directory: add_file changes no allocation entry, directory slot or data "
           "byte that was in use (C15 pre-state; data bytes of used granules modelled as the formatted value); (c) kind "
           "recognition: every image the tool writes re-opens as the same kind - cassette images of >= 161,280 bytes with "
-          "the bytes at the would-be directory positions symbolic, and written disk images")
+          "the bytes at the would-be directory positions symbolic, and written disk images; (d) histories whose single "
+          "allocations walk 10-27 entries of the default granule fill order (incl. its repeated entries)")
 OUTSIDE = "more than 2 append rounds (the tool rebuilds the image from the listing each time); more than 3 files"
 ASSUMPTIONS = c06.ASSUMPTIONS
 
